@@ -35,6 +35,19 @@ impl Meta {
         }
     }
 
+    /// Returns a copy of the metadata without the cached variable uses.
+    #[must_use]
+    pub fn without_variable_knowledge(&self) -> Meta {
+        Meta {
+            location: self.location.clone(),
+            file_id: self.file_id,
+            degree_knowledge: self.degree_knowledge.clone(),
+            type_knowledge: self.type_knowledge.clone(),
+            value_knowledge: self.value_knowledge.clone(),
+            variable_knowledge: VariableKnowledge::default(),
+        }
+    }
+
     #[must_use]
     pub fn start(&self) -> usize {
         self.location.start
